@@ -594,6 +594,15 @@ pub struct Printf {
     output_file: Option<File>,
 }
 
+fn write_blanks(out: &mut impl Write, mut count: usize) {
+    const BLANKS: [u8; 64] = [b' '; 64];
+    while count > 0 {
+        let n = count.min(BLANKS.len());
+        out.write_all(&BLANKS[..n]).unwrap();
+        count -= n;
+    }
+}
+
 impl Printf {
     pub fn new(format: &str, output_file: Option<File>) -> Result<Self, Box<dyn Error>> {
         Ok(Self {
@@ -614,12 +623,16 @@ impl Printf {
                 } => match format_directive(file_info, directive) {
                     Ok(content) => {
                         if let Some(width) = width {
+                            // format!'s own width parameter panics above u16::MAX
+                            let padding = width.saturating_sub(content.chars().count());
                             match justify {
                                 Justify::Left => {
-                                    write!(out, "{content:<width$}").unwrap();
+                                    write!(out, "{content}").unwrap();
+                                    write_blanks(&mut out, padding);
                                 }
                                 Justify::Right => {
-                                    write!(out, "{content:>width$}").unwrap();
+                                    write_blanks(&mut out, padding);
+                                    write!(out, "{content}").unwrap();
                                 }
                             }
                         } else {
